@@ -542,7 +542,13 @@ where
                         if x.stolen > 0 {
                             st.stolen += 1;
                         }
-                        if let Some(d) = &x.diverged {
+                        if x.stolen > 0 && (x.diverged.is_some() || x.deadlock) {
+                            // the watchdog intervened (a thread stopped reporting): the execution is not a controlled replay;
+                            // it is counted, its results are still compared, nothing is derived from its schedule
+                            if let Err(v) = check(&x) {
+                                st.violations.push((format!("schedule={:?}", x.choices()), v));
+                            }
+                        } else if let Some(d) = &x.diverged {
                             st.machinery.push(format!("schedule {:?}: {}", prefix, d));
                         } else {
                             if x.deadlock {
